@@ -38,7 +38,9 @@ implementation:
     empty_text_not_universal a zero-length value of a text/UI/DA/TM key only matches entities whose stored value is
                              the empty string (instead of every entity)
     uid_list_error           a UID key holding more than one UID makes the query fail (processing error)
-    reject_no_keys           an identifier without any supported key is rejected as invalid
+    reject_no_keys           a C-FIND identifier holding nothing but the Query/Retrieve Level is rejected as invalid
+    reject_unsupported_only  a C-FIND identifier whose only keys are optional keys the SCP does not support is rejected
+                             as invalid (PS3.4 C.2.2.1.3: such keys are ignored, i.e. every top-level entity matches)
     range_empty_value        a range without lower bound ("-b") also matches entities whose stored value is empty
 """
 from __future__ import annotations
@@ -66,7 +68,8 @@ UNIQUE = {"PATIENT": "PatientID", "STUDY": "StudyInstanceUID", "SERIES": "Series
           "IMAGE": "SOPInstanceUID"}
 TEXT_VR = ("LO", "PN", "SH", "CS")
 QUIRKS = ("per_instance_rows", "like_underscore", "like_percent", "like_case_insensitive", "like_null",
-          "empty_text_not_universal", "uid_list_error", "reject_no_keys", "range_empty_value")
+          "empty_text_not_universal", "uid_list_error", "reject_no_keys", "reject_unsupported_only",
+          "range_empty_value")
 
 
 def key_level(root, kw):
@@ -256,8 +259,11 @@ def validity(query, keys, quirks=frozenset()):
     for upper in levels[:idx]:
         if UNIQUE[upper] not in present:
             return "missing-unique-key"
-    if "reject_no_keys" in quirks and not present:
-        return "no-keys"
+    if not present:
+        if "reject_no_keys" in quirks and not query["keys"]:
+            return "no-keys"
+        if "reject_unsupported_only" in quirks and query["keys"]:
+            return "no-supported-keys"
     return None
 
 
